@@ -14,7 +14,7 @@ const char *mop_names[MOP_N] = {
     "glyphs",
     "r_init_rects", "r_binop", "r_rectop", "r_copy", "r_inverse", "r_conv", "r_fini",
     "filter_create", "compute_region",
-    "scribble", "alias", "bits_huge",
+    "scribble", "alias", "bits_huge", "bits_yuv",
 };
 
 const pixman_format_code_t sim_formats[] = {
@@ -411,7 +411,7 @@ fill_bytes (uint8_t *p, size_t n, uint64_t seed, pixman_format_code_t fmt)
 }
 
 /* geometry of a bits image from the op arguments */
-typedef struct { int fmt_idx, w, h, stride, neg, flags; unsigned misalign; uint64_t fillseed; pixman_format_code_t fmt; } bits_geom_t;
+typedef struct { int fmt_idx, w, h, stride, neg, flags; unsigned misalign; uint64_t fillseed; pixman_format_code_t fmt; int extra_rows; } bits_geom_t;
 
 static void
 decode_bits (const int64_t *a, int n, bits_geom_t *g)
@@ -432,7 +432,27 @@ decode_bits (const int64_t *a, int n, bits_geom_t *g)
     g->misalign = (unsigned)(sim_mod (A (6), 16) * 4);
     g->flags = (int)sim_mod (A (7), 16);
     g->fillseed = (uint64_t)A (8);
+    g->extra_rows = 0;
     if (bpp > 32) g->flags &= ~1;          /* accessors only work for <= 32 bpp */
+}
+
+/* yuy2: packed, 16 bits per pixel.  yv12: a plane of h rows of Y bytes, then two planes of
+ * h/2 rows of stride/2 bytes (V, U): stride a multiple of 8 bytes, h even, 3/2 * stride * h bytes */
+static void
+decode_yuv (const int64_t *a, int n, bits_geom_t *g)
+{
+    int planar = (int)sim_mod (A (1), 2);
+    memset (g, 0, sizeof *g);
+    g->fmt = planar ? PIXMAN_yv12 : PIXMAN_yuy2;
+    g->fmt_idx = 0;
+    g->w = 2 * (int)sim_clamp (A (2), 1, 40);
+    g->h = 2 * (int)sim_clamp (A (3), 1, 20);
+    if (planar) g->stride = ((g->w + 7) & ~7) + 8 * (int)sim_clamp (A (4), 0, 3);
+    else g->stride = ((g->w * 16 + 31) / 32) * 4 + 4 * (int)sim_clamp (A (4), 0, 3);
+    g->extra_rows = planar ? g->h / 2 : 0;
+    g->misalign = (unsigned)(sim_mod (A (5), 16) * 4);
+    g->flags = (int)sim_mod (A (6), 16) & 8;        /* which end of the arena buffer */
+    g->fillseed = (uint64_t)A (7);
 }
 
 static pixman_image_t *
@@ -440,7 +460,7 @@ make_bits_image (const bits_geom_t *g, arena_buf_t **buf_out, uint8_t **lowest_o
 		 uint8_t *share_lowest)
 {
     pixman_image_t *img;
-    size_t storage = (size_t)g->stride * g->h;
+    size_t storage = (size_t)g->stride * (g->h + g->extra_rows);
     arena_buf_t *buf = NULL;
     uint8_t *lowest;
     uint32_t *bits;
@@ -796,6 +816,26 @@ step_image_op (machine_t *m, const sim_op_t *op, const int64_t *a, int n, mstep_
 	}
 	return;
     }
+    case MOP_BITS_YUV:
+    {
+	bits_geom_t g;
+	arena_buf_t *buf = NULL;
+	uint8_t *lowest = NULL;
+	pixman_image_t *img;
+	if (s->used) return;
+	decode_yuv (a, n, &g);
+	st->executed = 1;
+	st->has_status = 1;
+	m->flush_hi_toggle ^= 1;
+	img = make_bits_image (&g, &buf, &lowest, m->guarded, NULL, NULL);
+	st->ret = img != NULL;
+	if (!img) return;
+	install_new_image (m, slot, MOP_BITS, img, op);
+	s->buf = buf; s->lowest = lowest; s->stride = g.stride; s->storage = (size_t)g.stride * (g.h + g.extra_rows);
+	s->fmt = g.fmt; s->fmt_idx = 0; s->w = g.w; s->h = g.h; s->yuv = 1;
+	st->created_slot = slot;
+	return;
+    }
     case MOP_BITS_HUGE:
     {
 	/* geometry from a small table: storage of 4 GiB and a little (or exactly), one control below 2 GiB.
@@ -843,7 +883,7 @@ step_image_op (machine_t *m, const sim_op_t *op, const int64_t *a, int n, mstep_
 	int other = (int)sim_mod (A (1), M_NIMG), fi = (int)sim_mod (A (2), sim_n_formats);
 	mslot_t *o = &m->img[other];
 	pixman_image_t *img;
-	if (s->used || !img_ok (m, other) || o->kind != MOP_BITS || other == slot || !o->lowest) return;
+	if (s->used || !img_ok (m, other) || o->kind != MOP_BITS || other == slot || !o->lowest || o->yuv) return;
 	if (PIXMAN_FORMAT_BPP (sim_formats[fi]) != PIXMAN_FORMAT_BPP (o->fmt) || fmt_is_indexed (sim_formats[fi])) return;
 	st->executed = 1; st->has_status = 1;
 	img = pixman_image_create_bits_no_clear (sim_formats[fi], o->w, o->h, pixman_image_get_data (o->img), o->stride);
@@ -964,8 +1004,8 @@ static int
 read_only (machine_t *m, int slot)
 {
     if (slot < 0) return 0;
-    if (m->img[slot].accessors == 2) return 1;
-    if (m->img[slot].has_alpha >= 0 && m->img[m->img[slot].has_alpha].accessors == 2) return 1;
+    if (m->img[slot].accessors == 2 || m->img[slot].yuv) return 1;
+    if (m->img[slot].has_alpha >= 0 && (m->img[m->img[slot].has_alpha].accessors == 2 || m->img[m->img[slot].has_alpha].yuv)) return 1;
     return 0;
 }
 
@@ -1016,6 +1056,9 @@ shares_storage (machine_t *m, int a, int b)
 }
 
 static const pixman_format_code_t mask_formats[3] = { PIXMAN_a8, PIXMAN_a1, PIXMAN_a4 };
+/* mask formats of pixman_composite_glyphs: index 0..3 as ever, then formats with other channel orders and widths */
+static const pixman_format_code_t glyph_mask_formats[10] = { PIXMAN_a8, PIXMAN_a1, PIXMAN_a4, PIXMAN_a8r8g8b8,
+							     PIXMAN_a8b8g8r8, PIXMAN_b8g8r8a8, PIXMAN_r8g8b8a8, PIXMAN_x8r8g8b8, PIXMAN_a4r4g4b4, PIXMAN_a1b5g5r5 };
 
 static void
 step_draw_op (machine_t *m, const sim_op_t *op, const int64_t *a, int n, mstep_t *st)
@@ -1080,7 +1123,7 @@ step_draw_op (machine_t *m, const sim_op_t *op, const int64_t *a, int n, mstep_t
 	mslot_t *s = &m->img[dst];
 	int x, y, w, h, bpp;
 	uint32_t *bits;
-	if (!img_ok (m, dst) || s->kind != MOP_BITS) return;
+	if (!img_ok (m, dst) || s->kind != MOP_BITS || s->yuv) return;
 	bpp = PIXMAN_FORMAT_BPP (s->fmt);
 	/* the caller addresses a rectangle inside the buffer it described */
 	x = (int)sim_clamp (A (1), 0, s->w); y = (int)sim_clamp (A (2), 0, s->h);
@@ -1097,7 +1140,7 @@ step_draw_op (machine_t *m, const sim_op_t *op, const int64_t *a, int n, mstep_t
 	int src = (int)sim_mod (A (0), M_NIMG), dst = (int)sim_mod (A (1), M_NIMG);
 	mslot_t *s = &m->img[src], *d = &m->img[dst];
 	int sx, sy, dx, dy, w, h;
-	if (!img_ok (m, src) || !img_ok (m, dst) || s->kind != MOP_BITS || d->kind != MOP_BITS || src == dst) return;
+	if (!img_ok (m, src) || !img_ok (m, dst) || s->kind != MOP_BITS || d->kind != MOP_BITS || src == dst || s->yuv || d->yuv) return;
 	sx = (int)sim_clamp (A (2), 0, s->w); sy = (int)sim_clamp (A (3), 0, s->h);
 	dx = (int)sim_clamp (A (4), 0, d->w); dy = (int)sim_clamp (A (5), 0, d->h);
 	w = (int)sim_clamp (A (6), 0, s->w - sx); if (w > d->w - dx) w = d->w - dx;
@@ -1243,7 +1286,7 @@ step_glyph_op (machine_t *m, const sim_op_t *op, const int64_t *a, int n, mstep_
 	void *fk = (void *)(uintptr_t)(1 + sim_mod (A (1), 64)), *gk = (void *)(uintptr_t)(1 + sim_mod (A (2), 64));
 	int frozen_here = 0;
 	if (!m->gc[c] || !img_ok (m, slot) || m->img[slot].kind != MOP_BITS) return;
-	if (PIXMAN_FORMAT_BPP (m->img[slot].fmt) > 32 || fmt_is_indexed (m->img[slot].fmt)) return;
+	if (PIXMAN_FORMAT_BPP (m->img[slot].fmt) > 32 || fmt_is_indexed (m->img[slot].fmt) || m->img[slot].yuv) return;
 	st->executed = 1; st->has_status = 1;
 	set_active (m, slot, -1, -1);
 	if (m->gc_freeze[c] == 0) { pixman_glyph_cache_freeze (m->gc[c]); frozen_here = 1; }
@@ -1286,7 +1329,7 @@ step_glyph_op (machine_t *m, const sim_op_t *op, const int64_t *a, int n, mstep_
 	}
 	if (sim_mod (A (3), 2))
 	    pixman_composite_glyphs (sim_ops[sim_mod (A (0), sim_n_ops)], m->img[src].img, m->img[dst].img,
-				     sim_mod (A (4), 4) == 3 ? PIXMAN_a8r8g8b8 : mask_formats[sim_mod (A (4), 4)],
+				     glyph_mask_formats[sim_mod (A (4), 10)],
 				     (int32_t)sim_clamp (A (5), -3000, 3000), (int32_t)sim_clamp (A (6), -3000, 3000),
 				     (int32_t)sim_clamp (A (7), -3000, 3000), (int32_t)sim_clamp (A (8), -3000, 3000),
 				     (int32_t)sim_clamp (A (9), -3000, 3000), (int32_t)sim_clamp (A (10), -3000, 3000),
@@ -1498,7 +1541,7 @@ machine_step (machine_t *m, const sim_op_t *op, int op_index, mstep_t *st)
 	fentry = (int)sim_clamp (op->a[2], 0, 3);
     }
     sim_alloc_enter (op_index, fmode, fk, fentry);
-    if (op->kind <= MOP_SET_DITHER_OFFSET || op->kind == MOP_ALIAS || op->kind == MOP_BITS_HUGE) step_image_op (m, op, a, n, st);
+    if (op->kind <= MOP_SET_DITHER_OFFSET || op->kind == MOP_ALIAS || op->kind == MOP_BITS_HUGE || op->kind == MOP_BITS_YUV) step_image_op (m, op, a, n, st);
     else if (op->kind <= MOP_COMPOSITE_TRIS || op->kind == MOP_SCRIBBLE) step_draw_op (m, op, a, n, st);
     else if (op->kind <= MOP_GLYPHS) step_glyph_op (m, op, a, n, st);
     else if (op->kind <= MOP_R_FINI) step_region_op (m, op, a, n, st);
@@ -1671,7 +1714,8 @@ replica_one (machine_t *m, int slot, int share, arena_buf_t **out_buf, int with_
     {
 	bits_geom_t g;
 	decode_bits (a, n, &g);
-	if (cop->kind == MOP_ALIAS)
+	if (cop->kind == MOP_BITS_YUV) decode_yuv (a, n, &g);
+	else if (cop->kind == MOP_ALIAS)
 	{
 	    /* an alias has no geometry of its own in its creation op */
 	    memset (&g, 0, sizeof g);
